@@ -10,7 +10,7 @@ from ..ctx import Ctx
 from .sqlutil import (check_window_predicate, link_rows_follow_node_deletes,
                       some_span_predicate, sql_of, table_of,
                       time_window_bounds, window_params)
-from .util import forwards
+from .util import enclosing, forwards
 
 EXPLANATION = (
     "Cleaning is decided on the statements *extracted* from the SQLAlchemy "
@@ -156,6 +156,43 @@ def check(rep: Report, ctx: Ctx) -> None:
         rep.ob("R11.6", "window predicates agree", same, fi=sib,
                node=sib.node,
                detail=(f"cleaning: {pred.nf()} | unique graphs: {sp.nf()}"))
+
+    # ---- R11.8 ---------------------------------------------------------------
+    rep.rule("R11.8", "the window's ends are the earliest start and the "
+             "latest end seen during ingestion", 4)
+    sd = ctx.func("DataHolder.save_data")
+    ev = sd.params()[1]
+    for fld, fn, src in (("_min_timestamp", "min", "start_timestamp"),
+                         ("_max_timestamp", "max", "end_timestamp")):
+        st = [x for x in ast.walk(sd.node) if isinstance(x, ast.Assign)
+              and unparse(x.targets[0]) == f"self.{fld}"]
+        ok = len(st) == 1 and isinstance(st[0].value, ast.Call) and unparse(
+            st[0].value.func) == fn and sorted(unparse(a) for a in
+                                               st[0].value.args) == sorted(
+            [f"self.{fld}", f"{ev}.{src}"]) and not enclosing(
+                sd.node, st[0], (ast.If,))
+        rep.ob("R11.8", f"{fld} = {fn}({fld}, span.{src})", ok, fi=sd,
+               node=st[0] if st else sd.node,
+               detail=unparse(st[0])[:100] if st else "<missing>")
+    for prop_name, fld, other in (("min_timestamp", "_min_timestamp",
+                                   "_max_timestamp"),
+                                  ("max_timestamp", "_max_timestamp",
+                                   "_min_timestamp")):
+        g = ctx.func(f"DataHolder.{prop_name}")
+        rets = [r for r in ast.walk(g.node) if isinstance(r, ast.Return)]
+        last = max(rets, key=lambda r: r.lineno) if rets else None
+        ok = last is not None and unparse(last.value) == f"self.{fld}" and \
+            not enclosing(g.node, last, (ast.If,))
+        rep.ob("R11.8", f"{prop_name} returns {fld} once data was seen", ok,
+               fi=g, node=last if last is not None else g.node,
+               detail=f"return {unparse(last.value) if last else '?'}")
+    # save_data delegates every span to the concrete holder
+    dl = [c for c in ast.walk(sd.node) if isinstance(c, ast.Call)
+          and call_name(c) == "_save_data"]
+    rep.ob("R11.8", "every span is both tracked and stored", len(dl) == 1
+           and unparse(dl[0].args[0]) == ev and not enclosing(
+               sd.node, dl[0], (ast.If, ast.Try)), fi=sd,
+           node=dl[0] if dl else sd.node, detail="self._save_data(otel_event)")
 
     # ---- R11.7 ---------------------------------------------------------------
     rep.rule("R11.7", "cleaning leaves no orphan link rows", 2)
